@@ -614,6 +614,48 @@ fn st_recv_pubrec_v5_flow() {
     core::mem::forget(c);
 }
 
+// lighter form for the quick tier: one QoS2 exchange waiting for PUBREC, every PUBREC reason code.
+// Reason codes below 0x80 (Success 0x00, No matching subscribers 0x10) continue with PUBREL; only >= 0x80 end the exchange.
+#[kani::proof]
+#[kani::unwind(2)]
+fn st_recv_pubrec_v5_reason_codes() {
+    let mut c = CC::new(Version::V5_0);
+    c.is_client = true;
+    c.status = ConnectionStatus::Connected;
+    c.auto_pub_response = kani::any();
+    let j: u16 = kani::any();
+    kani::assume(j != 0);
+    use_ids(&mut c, &[j]);
+    c.pid_pubrec.insert(j);
+    let m: u16 = kani::any();
+    let cnt: u16 = kani::any();
+    kani::assume(cnt >= 1 && cnt <= m);
+    c.publish_send_max = Some(m);
+    c.publish_send_count = cnt;
+    let rc: u8 = kani::any();
+    kani::assume(PubrecReasonCode::try_from(rc).is_ok());
+    let failure = rc >= 0x80;
+    kani::cover!(rc == 0x10, "success code other than 0x00");
+    kani::cover!(failure, "error code");
+    let raw = pbh::verif_raw(0x50, &[(j >> 8) as u8, j as u8, rc]);
+    let ev = c.process_recv_v5_0_pubrec(raw);
+    assert!(!c.pid_pubrec.contains(&j) && count(&ev, is_recv) == 1, "[C06] the matching PUBREC ends the wait for PUBREC and is delivered");
+    if failure {
+        assert!(c.publish_send_count == cnt - 1, "[C12] an error PUBREC frees the slot");
+        assert!(count(&ev, |e| is_released(e, j)) == 1 && !c.pid_man.is_used_id(j), "[C08] an error PUBREC releases the id exactly once");
+        assert!(count(&ev, is_send) == 0, "[C06] no PUBREL after an error PUBREC");
+    } else {
+        assert!(c.publish_send_count == cnt, "[C12] a successful PUBREC (any reason code below 0x80) keeps the slot until PUBCOMP");
+        assert!(c.pid_man.is_used_id(j) && count(&ev, is_any_released) == 0, "[C06,C08] the id stays in use until PUBCOMP");
+        assert!(count(&ev, is_send) == c.auto_pub_response as usize, "[C06] PUBREL sent automatically iff enabled");
+        if c.auto_pub_response {
+            assert!(c.pid_pubcomp.contains(&j), "[C06] PUBREL sent: now waiting for PUBCOMP");
+        }
+    }
+    core::mem::forget(ev);
+    core::mem::forget(c);
+}
+
 // PUBCOMP received (both versions): completes exactly the exchange waiting for it
 #[kani::proof]
 #[kani::unwind(2)]
